@@ -59,8 +59,6 @@ func symOutput() []byte {
 	return []byte(out)
 }
 
-
-
 var testNames = []string{"TestFoo", "Test/sub", "Тест", "a b", "CON", "com1", "x*y?[z]", "..", "t\\u", "日本/語", ""}
 
 func failTestName() string {
@@ -258,7 +256,6 @@ func H_C17_ignored() {
 	reach("compared")
 }
 
-
 // H_C09_failfileFlaky: once a replayed fail file falsified the property, no fresh random test case runs.
 func H_C09_failfileFlaky() {
 	vfsReset()
@@ -284,7 +281,6 @@ func H_C09_failfileFlaky() {
 }
 
 func nondetFirstFailed(o *outcomeProp) bool { return o.calls >= 1 && o.firstOutcome == 2 }
-
 
 // H_C17_mixed: unusable fail files next to a usable one (same seed, the unusable ones sorted
 // first) change nothing: the usable file is still replayed and fails the test "after 0 tests".
